@@ -182,6 +182,9 @@ FloatOfText(s) ==
              \* underscores between digits are legal in float(); outside the model
              [ok |-> TRUE, v |-> UnmodelledV]
         ELSE IF ~wellformed THEN NoParse
+        ELSE IF ep = 0 /\ Len(StripZeros(ip)) > 16 THEN
+             \* repr() writes doubles from 1e16 on with an exponent: this text is no repr
+             [ok |-> TRUE, v |-> UnmodelledV]
         ELSE IF half THEN [ok |-> TRUE, v |-> IF h = 0 THEN (IF neg THEN NZeroV ELSE FloatH(0))
                                                ELSE FloatH(IF neg THEN -h ELSE h)]
         ELSE [ok |-> TRUE, v |-> FBigV(u)]
@@ -220,7 +223,8 @@ ToElement(key, v) ==
 \* normalised (CR LF and a lone CR become LF).  Everything else in the XML domain is kept.
 RECURSIVE NormNL(_)
 NormNL(s) ==
-    IF s = <<>> THEN <<>>
+    IF \A i \in DOMAIN s : s[i] # "\r" THEN s
+    ELSE IF s = <<>> THEN <<>>
     ELSE IF Head(s) = "\r"
     THEN <<"\n">> \o NormNL(IF Len(s) >= 2 /\ s[2] = "\n" THEN Tail(Tail(s)) ELSE Tail(s))
     ELSE <<Head(s)>> \o NormNL(Tail(s))
